@@ -121,6 +121,17 @@ def gen_project(rnd, idx):
         text = "".join(body)
         if rnd.random() < 0.3:
             text = text.replace("\n\n", "\n\n// noise\n\n", 1)
+        if rnd.random() < 0.25:
+            # text that other tools read as "this file is generated / not to be touched": a comment or a string says nothing about
+            # whether the functions below it are commands
+            marker = rnd.choice(["// @generated by report-app, do not edit\n", "pub const BANNER: &str = \"// @generated\";\n", "// Code generated by protoc-gen-rust. DO NOT EDIT.\n",
+                                 "// This file is automatically @generated by Cargo.\n", "/* eslint-disable */ // autogenerated\n", "#![cfg_attr(rustfmt, rustfmt_skip)]\n// @generated SignedSource<<abc>>\n",
+                                 "// <auto-generated/>\n", "//! @generated\n", "// vim: set ft=rust: @nolint @generated\n"])
+            if marker.startswith(("#!", "//!")):
+                text = marker + text
+            else:
+                text = text.replace("\n\n", "\n\n" + marker + "\n", 1) if rnd.random() < 0.5 else marker + text
+            feats.add("generated-file-marker")
         if rnd.random() < 0.3:
             # what a Rust source file may legally start with before its first item
             lead = rnd.choice(["#!/usr/bin/env rust-script\n", "#!/usr/bin/env -S cargo +nightly -Zscript\n", "\ufeff", "\ufeff#!/usr/bin/env rust-script\n", "#![allow(dead_code)]\n",
